@@ -38,6 +38,8 @@ def apply_patch(root, patch):
 
 def run_demo(root, sdir, meta):
     demo = meta.get('demo', 'demo.py')
+    if not os.path.isfile(os.path.join(sdir, demo)):
+        demo = 'demo.py'              # (a description instead of a name)
     path = os.path.join(sdir, demo)
     env = dict(os.environ, PYTHONPATH=os.path.join(root, 'lib', 'python'))
     if demo.endswith('_test.py'):
